@@ -187,6 +187,9 @@ type cliCommand struct {
 	Lit    *ast.CompositeLit
 	Action flow.FuncUnit
 	Pkg    *packages.Package
+	// Decorators: in-package functions wrapped around the action (Action: withJSONLogging(func(c) error {…})), outermost
+	// first; they run on every invocation like a Before hook and must hand the action's error on
+	Decorators []flow.FuncUnit
 }
 
 // cliCommands finds the cli.Command composite literals in package main and their Action function literals.
@@ -220,6 +223,38 @@ func cliCommands(p *core.Program) []cliCommand {
 				case "Name":
 					cmd.Name, _ = constString(pk.TypesInfo, kv.Value)
 				case "Action":
+					// decorators: f(g(func…)) with f, g functions of the package taking and returning an action
+					for {
+						call, isCall := ast.Unparen(kv.Value).(*ast.CallExpr)
+						if !isCall {
+							break
+						}
+						fn, _ := typeutil.Callee(pk.TypesInfo, call).(*types.Func)
+						if fn == nil || fn.Pkg() != pk.Types {
+							break
+						}
+						var inner ast.Expr
+						for _, a := range call.Args {
+							if tv, ok := pk.TypesInfo.Types[a]; ok {
+								if _, isSig := tv.Type.Underlying().(*types.Signature); isSig {
+									inner = a
+								}
+							}
+						}
+						var decl *ast.FuncDecl
+						for _, ff := range pk.Syntax {
+							for _, d := range ff.Decls {
+								if fd, ok := d.(*ast.FuncDecl); ok && pk.TypesInfo.Defs[fd.Name] == types.Object(fn) {
+									decl = fd
+								}
+							}
+						}
+						if inner == nil || decl == nil {
+							break
+						}
+						cmd.Decorators = append(cmd.Decorators, flow.FuncUnit{Pkg: pk, Node: decl, Name: "main." + fn.Name()})
+						kv = &ast.KeyValueExpr{Key: kv.Key, Value: inner}
+					}
 					if fl, ok := ast.Unparen(kv.Value).(*ast.FuncLit); ok {
 						cmd.Action = flow.FuncUnit{Pkg: pk, Node: fl, Name: "main.cmd:" + cmd.Name}
 					} else if id, ok := ast.Unparen(kv.Value).(*ast.Ident); ok {
